@@ -37,6 +37,7 @@ import (
 
 	"github.com/hashicorp/nodeenrollment"
 	"github.com/hashicorp/nodeenrollment/registration"
+	"github.com/hashicorp/nodeenrollment/rotation"
 	"github.com/hashicorp/nodeenrollment/types"
 	"google.golang.org/protobuf/proto"
 	"google.golang.org/protobuf/types/known/structpb"
@@ -86,6 +87,7 @@ const (
 	sfFetchWrapped = "fetch/wrapped"     // server holds the registration wrapper: acceptance = node registered and credentials issued
 	sfAuthNodeLed  = "authorize/nodeled" // unknown node: acceptance = new node record
 	sfAuthWrapped  = "authorize/wrapped" // unknown node, bundle carries wrapped registration info
+	sfRotate       = "rotate/nodeled"    // the request travels inside a rotation request of an enrolled node: acceptance = new credentials issued
 	sfDocLifetime  = 24 * time.Hour      // documented DefaultFetchCredentialsLifetime
 	sfDocNotBefore = -5 * time.Minute    // documented default not-before skew
 	sfDocNotAfter  = 5 * time.Minute     // documented default not-after skew
@@ -94,7 +96,7 @@ const (
 )
 
 var sfMutationTargets = []string{sfFetchNodeLed, sfFetchToken, sfFetchWrapped, sfAuthNodeLed, sfAuthWrapped}
-var sfWindowTargets = []string{sfFetchNodeLed, sfFetchToken, sfFetchWrapped, sfAuthNodeLed}
+var sfWindowTargets = []string{sfFetchNodeLed, sfFetchToken, sfFetchWrapped, sfAuthNodeLed, sfRotate}
 
 // sfCase describes one executed case. Key material is fresh per run; the
 // descriptor says what is done to it. Bundle/Sig are filled in only for
@@ -154,6 +156,7 @@ func sfIsFetch(target string) bool      { return strings.HasPrefix(target, "fetc
 type sfWorld struct {
 	target string
 	srv    *sfSrv
+	old    *world.Node // rotate: the enrolled node whose credentials carry the request
 	n      *world.Node
 	base   *types.FetchNodeCredentialsRequest
 }
@@ -182,6 +185,18 @@ func sfPrepare(srv *sfSrv, target string) (*sfWorld, error) {
 			if aerr != nil {
 				return nil, fmt.Errorf("%w: AuthorizeNode on the unmutated request of an unknown node: %v", errSfHonest, aerr)
 			}
+		}
+	case sfRotate:
+		er, eerr := world.Enroll(s, world.FlowAuthorize, false, nil, nil, nil)
+		if eerr != nil {
+			return nil, fmt.Errorf("%w: enrolling the node that will rotate: %v", errSfHonest, eerr)
+		}
+		w.old = er.Node
+		if w.n, err = world.NewNode(false, ""); err != nil {
+			return nil, err
+		}
+		if w.base, err = w.n.FetchRequest(); err != nil {
+			return nil, err
 		}
 	case sfFetchToken:
 		_, tok, terr := registration.CreateServerLedActivationToken(s.Ctx, s.Store, &types.ServerLedRegistrationRequest{}, s.Opts()...)
@@ -245,7 +260,17 @@ func (w *sfWorld) call(req *types.FetchNodeCredentialsRequest, extra ...nodeenro
 	w.srv.rec.Reset()
 	var o sfOutcome
 	o.panicV, o.stack = engine.Guard(func() {
-		if sfIsFetch(w.target) {
+		if w.target == sfRotate {
+			ct, eerr := nodeenrollment.EncryptMessage(s.Ctx, in, w.old.Creds)
+			if eerr != nil {
+				o.err = fmt.Errorf("harness: encrypting the rotation payload: %w", eerr)
+				return
+			}
+			rreq := &types.RotateNodeCredentialsRequest{CertificatePublicKeyPkix: w.old.K.Pkix, EncryptedFetchNodeCredentialsRequest: ct}
+			resp, err := rotation.RotateNodeCredentials(s.Ctx, s.Store, rreq, s.Opts(extra...)...)
+			o.err, o.respNil = err, resp == nil
+			o.issued = err == nil && resp != nil && len(resp.EncryptedFetchNodeCredentialsResponse) > 0
+		} else if sfIsFetch(w.target) {
 			resp, err := registration.FetchNodeCredentials(s.Ctx, s.Store, in, s.Opts(extra...)...)
 			o.err, o.respNil = err, resp == nil
 			o.issued = err == nil && resp != nil && len(resp.EncryptedNodeCredentials) > 0
@@ -260,6 +285,9 @@ func (w *sfWorld) call(req *types.FetchNodeCredentialsRequest, extra ...nodeenro
 }
 
 func sfOpName(target string) string {
+	if target == sfRotate {
+		return "RotateNodeCredentials"
+	}
 	if sfIsFetch(target) {
 		return "FetchNodeCredentials"
 	}
@@ -272,7 +300,7 @@ func (w *sfWorld) processed(o sfOutcome) bool {
 	if !o.issued {
 		return false
 	}
-	if sfIsFetch(w.target) {
+	if sfIsFetch(w.target) || w.target == sfRotate {
 		return true
 	}
 	// authorize: the record of this node must have been written
@@ -335,6 +363,11 @@ func (w *sfWorld) checkRejected(c *engine.Ctx, sc sfCase, req *types.FetchNodeCr
 	}
 	for _, op := range o.ops {
 		cls := op.Kind + "-" + op.Type
+		if w.target == sfRotate && op.Kind != "store" && op.Kind != "remove" {
+			// the request is inside an encrypted payload: the rotating node's record has to be
+			// read before the request can even be seen; only writes count here
+			continue
+		}
 		r.Violation("storage-op-before-rejection:"+cls, fmt.Sprintf("%s refused %s [%s] (%v) only after touching storage: %s", sfOpName(w.target), what, w.target, o.err, sfOpsString(o.ops)), sfWitness(sc, w, req))
 	}
 }
